@@ -171,6 +171,43 @@ def check(ctx):
     ctx.instance('C11.R1', 'String.encode iterates over all characters', 'ok' if ok else 'VIOLATION', node=f, file=CC)
     if not ok:
         ctx.violation('C11.R1', CC, f, 'constraints_checker.String.encode', 'the alphabet test does not visit every character of data', stmt='alphabet loop')
+    # ... and no value gets past the loop untested: a returning path that does not run the loop is the path of an absent alphabet, of empty data -- or a shortcut whose test
+    # must be as strict as the loop.  A regular expression used for that must match the *whole* string: `$` also matches before a trailing line feed.
+    for g_, dparam in cands:
+        gps = sem.paths(g_, positional=True) or []
+        if not any(ev[0] == 'loop' and ev[1] == dparam for p in gps for ev in p.events):
+            continue
+        for p in gps:
+            if p.outcome[0] != 'return' or any(ev[0] == 'loop' and ev[1] == dparam for ev in p.events):
+                continue
+            lits_ = [(c_[0], c_[1]) for c_ in p.conds]
+            if any((t_ in ('self.permitted_alphabet is None',) and pol_) or (t_ in ('self.permitted_alphabet', 'self.permitted_alphabet is not None') and not pol_) for t_, pol_ in lits_):
+                continue
+            if any((t_ in (dparam, 'len(%s)' % dparam) and not pol_) or (re.match(r'^len\(%s\)( -0)? == 0$' % dparam, t_) and pol_) for t_, pol_ in lits_):
+                continue
+            rx = [t_ for t_, pol_ in lits_ if pol_ and re.search(r'\.(match|fullmatch|search)\(', t_)]
+            verdict, why = 'undecided', 'a path returns without running the alphabet loop under [%s]' % '; '.join(('' if pol_ else 'not ') + t_ for t_, pol_ in lits_)[:160]
+            if rx:
+                # the patterns compiled in the checker and the alphabet module
+                pats_ = []
+                for rel_ in (CC, 'asn1tools/codecs/permitted_alphabet.py'):
+                    for x_ in ast.walk(model.mod(rel_).tree):
+                        if isinstance(x_, ast.Call) and ast.unparse(x_.func) in ('re.compile', 'compile') and x_.args:
+                            consts_ = [k_.value for k_ in ast.walk(x_.args[0]) if isinstance(k_, ast.Constant) and isinstance(k_.value, str)]
+                            pats_.append((x_, consts_))
+                uses_full = all('.fullmatch(' in t_ for t_ in rx)
+                dollar = [x_ for x_, cs_ in pats_ if any(c_.endswith('$') and not c_.endswith('\\$') for c_ in cs_)]
+                if dollar and not uses_full:
+                    verdict, why = 'VIOLATION', ('the shortcut `%s` accepts the string when the pattern compiled at %s:%d matches, and that pattern ends with `$`: `$` also matches just '
+                                                 'before a trailing line feed, so a string whose last character is a line feed outside the permitted alphabet passes unchecked'
+                                                 % (rx[0][:80], Model.qual(Model.enclosing_function(dollar[0])).split('::')[0] if Model.enclosing_function(dollar[0]) is not None else CC, dollar[0].lineno))
+                elif pats_ and (uses_full or all(any(c_.endswith('\\Z') for c_ in cs_) for _x, cs_ in pats_)):
+                    verdict, why = 'ok', 'whole-string regular expression'
+            ctx.instance('C11.R1', '%s: path past the alphabet loop' % Model.qual(g_), verdict, why if verdict != 'ok' else '', nontrivial=verdict != 'undecided', node=g_, file=CC)
+            if verdict == 'VIOLATION':
+                ctx.violation('C11.R1', CC, p.outcome[2] if len(p.outcome) > 2 and hasattr(p.outcome[2], 'lineno') else g_, Model.qual(g_), why, stmt='alphabet shortcut')
+            elif verdict == 'undecided':
+                ctx.note('C11.R1 undecided: ' + why)
     # containers recurse: the child's encode is called (directly or through a helper that is handed the child) -- for Dict and List inside
     # a loop over the collection
     for cn, coll, f, ok in containers_recurse(model, CC):
